@@ -18,7 +18,8 @@ const ZONES: [&str; 20] = ["America/New_York", "Europe/Berlin", "Asia/Tokyo", "A
 const FIXED: [&str; 3] = ["+05:30", "-08:00", "+00:00"];
 // (the last four name directories of the database, or a file with something below it: a failed lookup of "Europe" must not
 // change what a later lookup of a zone below it answers)
-const BAD: [&str; 7] = ["Nowhere/Land", "Mars/Olympus_Mons", "Europe/Atlantis", "Europe", "America/Indiana", "America/Argentina", "UTC/Nowhere"];
+// (... and files of the database directory that are no TZif data: the read succeeds, the parse fails)
+const BAD: [&str; 10] = ["Nowhere/Land", "Mars/Olympus_Mons", "Europe/Atlantis", "Europe", "America/Indiana", "America/Argentina", "UTC/Nowhere", "zone.tab", "tzdata.zi", "leapseconds"];
 const FIELDS: [&str; 13] = ["year", "month", "day", "hour", "minute", "second", "millisecond", "dayOfWeek", "dayOfYear", "daysInMonth", "inLeapYear", "hoursInDay", "offsetSeconds"];
 
 /// an instant between 1972 and 2036 that is not on a whole second (so never exactly on a transition).
@@ -54,7 +55,7 @@ pub fn call(r: &mut Rng, pool: &[&'static str], fault: &str) -> Value {
             if r.chance(1, 2) { json!({"op": "CZ.fromStr", "args": {"s": s}}) } else { json!({"op": "CRelTo.fromStr", "args": {"s": s}}) }
         }
         6 => json!({"op": "CZ.startOfDay", "args": {"ns": ns, "tz": tz}}),
-        7 => json!({"op": *r.pick(&["CZ.toString", "CZ.display", "CZ.offset"]), "args": {"ns": ns, "tz": tz}}),
+        7 => json!({"op": *r.pick(&["CZ.toString", "CZ.display", "CZ.offset", "CNow.date", "CNow.dateTime", "CNow.time"]), "args": {"ns": ns, "tz": tz}}),
         8 => {
             let dur = if huge { json!({"y": 300000, "d": r.range(0, 40)}) } else { json!({"mo": r.range(-14, 14), "d": r.range(-40, 40), "h": r.range(-30, 30)}) };
             let dur = fix_sign(dur);
@@ -141,6 +142,8 @@ pub fn plan(r: &mut Rng, sid: usize) -> Value {
         // ... and the Display of a zoned date-time in a fourth zone: a result that depends on whether the lock happens to be free
         // (a non-blocking fast path) differs from the call's result alone only while the others keep the lock busy
         let mut pairs = pairs; pairs.push(json!({"op": "CZ.display", "args": {"ns": instant(r), "tz": "Europe/Berlin"}}));
+        // ... and the Now functions against each other (two locks taken in opposite orders would meet here)
+        for op in ["CNow.date", "CNow.dateTime", "CNow.time"] { pairs.push(json!({"op": op, "args": {"ns": instant(r), "tz": "Asia/Tokyo"}})); }
         let calls = if n > 8 { 250 } else { 500 };
         let ph = Value::Array((0..n).map(|_| Value::Array((0..calls).map(|_| if r.chance(1, 8) { r.pick(&distinct[..]).clone() } else { r.pick(&pairs[..]).clone() }).collect())).collect());
         return json!({"n": n, "kind": "clean", "phases": [ph]});
